@@ -943,7 +943,10 @@ class Traph(object):
                                 target_node
                             )
                             done_blocks.add(target_node.block)
-                            weids.add(target_webentity)
+
+                            # The target page might not have a webentity
+                            if target_webentity:
+                                weids.add(target_webentity)
 
                         if state.should_yield(5000):
                             yield state
@@ -995,7 +998,10 @@ class Traph(object):
                                 source_node
                             )
                             done_blocks.add(source_node.block)
-                            weids.add(source_webentity)
+
+                            # The source page might not have a webentity
+                            if source_webentity:
+                                weids.add(source_webentity)
 
                         if state.should_yield(5000):
                             yield state
